@@ -63,6 +63,11 @@ Associative        == phase = 3 =>
                         /\ Meet(M, c) = Meet(a, Meet(b, c))
                         /\ Meet(M, c) = Meet(Meet(a, c), b)
                         /\ Meet(M, c) = Meet(Meet(c, b), a)
+\* Pairwise compatible terms are jointly compatible (so a clash among three
+\* constraints is always a clash between two of them, in some order).
+PairwiseCompatible == phase = 3 =>
+                        ((~IsBot(M) /\ ~IsBot(Meet(a, c)) /\ ~IsBot(Meet(b, c)))
+                           => ~IsBot(Meet(M, c)))
 TripleIntersection == phase = 3 =>
                         InstOf(Meet(M, c)) = InstOf(a) \cap InstOf(b) \cap InstOf(c)
 =============================================================================
